@@ -140,6 +140,10 @@ type c30Seed struct {
 // side decides which transceivers have no sender / no receiver when the remote section is applied).
 var c30ExtraLocals = []string{"bare", "video", "avd", "sim", "sendonly-kinds", "recvonly-kinds", "sendonly-tracks"}
 
+// c30RTPLocals: set-ups of the RECEIVING side of the RTP part ("" = audio track only: the simulcast section
+// gets a transceiver created from the offer).
+var c30RTPLocals = []string{"", "video-sender-only"}
+
 var c30Sems = []SDPSemantics{SDPSemanticsUnifiedPlan, SDPSemanticsPlanB, SDPSemanticsUnifiedPlanWithFallback}
 
 var c30SemNames = []string{"unified", "planb", "fallback"}
@@ -252,6 +256,17 @@ func c30Setup(tb testing.TB, pc *PeerConnection, setup string) {
 		must(t.Sender().AddEncoding(c30Track(tb, MimeTypeVP8, "lv", "ls", "h")))
 		must(t.Sender().AddEncoding(c30Track(tb, MimeTypeVP8, "lv", "ls", "f")))
 		addTrack(MimeTypeOpus, "la")
+	case "sim-sendrecv":
+		tr, err := pc.AddTransceiverFromTrack(c30Track(tb, MimeTypeVP8, "lv", "ls", "q"),
+			RTPTransceiverInit{Direction: RTPTransceiverDirectionSendrecv})
+		must(err)
+		must(tr.Sender().AddEncoding(c30Track(tb, MimeTypeVP8, "lv", "ls", "h")))
+		must(tr.Sender().AddEncoding(c30Track(tb, MimeTypeVP8, "lv", "ls", "f")))
+		addTrack(MimeTypeOpus, "la")
+	case "audio+video-sender-only":
+		addTrack(MimeTypeOpus, "la")
+		_, err := pc.AddTransceiverFromTrack(c30Track(tb, MimeTypeVP8, "lv", "ls", ""), RTPTransceiverInit{Direction: RTPTransceiverDirectionSendonly})
+		must(err)
 	case "sendonly-kinds", "recvonly-kinds":
 		// transceivers made from a kind: a send-only one has no receiver, a receive-only one no sender
 		dir := map[string]RTPTransceiverDirection{"sendonly-kinds": RTPTransceiverDirectionSendonly, "recvonly-kinds": RTPTransceiverDirectionRecvonly}[setup]
@@ -1394,8 +1409,8 @@ func c30Worker(t *testing.T, spec string) {
 
 		return
 	}
-	if spec == "rtp" {
-		c30RTPWorker(t, logw, c30Case{Part: "rtp"})
+	if spec == "rtp" || strings.HasPrefix(spec, "rtp:") {
+		c30RTPWorker(t, logw, c30Case{Part: "rtp", Local: strings.TrimPrefix(strings.TrimPrefix(spec, "rtp"), ":")})
 		logw("DONE")
 
 		return
@@ -1851,12 +1866,18 @@ func TestVerifC30(t *testing.T) { //nolint:cyclop
 	var crashList []c30Crash
 	var resList []c30Result
 	// the RTP part runs next to the batches, in its own worker
-	var rtpRes c30Run
+	rtpRes := make([]c30Run, len(c30RTPLocals))
 	var rtpWG sync.WaitGroup
 	rtpWG.Add(1)
 	go func() {
 		defer rtpWG.Done()
-		rtpRes = p.runWorker("rtp", "rtp", 240*time.Second, "GOMAXPROCS=4")
+		for i, local := range c30RTPLocals {
+			spec, tag := "rtp", "rtp"
+			if local != "" {
+				spec, tag = "rtp:"+local, "rtp-"+local
+			}
+			rtpRes[i] = p.runWorker(spec, tag, 240*time.Second, "GOMAXPROCS=4")
+		}
 	}()
 	runPhase := func(lo, hi int, tag string) {
 		results := make(chan c30Result, 4096)
@@ -1974,7 +1995,9 @@ func TestVerifC30(t *testing.T) { //nolint:cyclop
 		c.Add("worker_crashes", 1)
 		c.Violation(key, what, cs)
 	}
-	c30RTPAccount(c, t, rtpRes)
+	for i, local := range c30RTPLocals {
+		c30RTPAccount(c, t, rtpRes[i], local)
+	}
 	if stopped {
 		c.NotExhaustive(fmt.Sprintf("time budget of %v reached: %d of %d planned cases were executed (cases are ordered small seeds and value operators first)",
 			budget, len(resList)+len(crashList), p.env.total))
@@ -2199,8 +2222,19 @@ func c30RTPWorker(t *testing.T, logw func(string, ...any), cs c30Case) { //nolin
 	}
 	a := vNewPC(t, c30PairAPI(t), nil)
 	b := vNewPC(t, c30PairAPI(t), nil)
-	c30Setup(t, a, "sim") // simulcast video (rids q,h,f) + audio (the sentinel)
-	c30Setup(t, b, "audio")
+	switch cs.Local {
+	case "":
+		c30Setup(t, a, "sim") // simulcast video (rids q,h,f) + audio (the sentinel)
+		c30Setup(t, b, "audio")
+	case "video-sender-only":
+		// the sending side offers its simulcast video section sendrecv; the receiving side owns a video
+		// transceiver made from a track, send-only: it is associated with that section and raised to sendrecv,
+		// and it has NO RTPReceiver. Its audio transceiver (the sentinel's) is an ordinary sendrecv one.
+		c30Setup(t, a, "sim-sendrecv")
+		c30Setup(t, b, "audio+video-sender-only")
+	default:
+		vkit.Fatalf(t, "rtp: unknown receiving-side set-up %q", cs.Local)
+	}
 	sentinel := make(chan uint16, 1024)
 	var sentinelSSRC uint32
 	for _, s := range a.GetSenders() {
@@ -2408,7 +2442,7 @@ func c30RTPWorker(t *testing.T, logw func(string, ...any), cs c30Case) { //nolin
 }
 
 // c30RTPAccount turns the log of the RTP worker into evidence / violations.
-func c30RTPAccount(c *vkit.Check, t *testing.T, r c30Run) {
+func c30RTPAccount(c *vkit.Check, t *testing.T, r c30Run, local string) {
 	lastK, lastFam, done := -1, "", false
 	for _, l := range r.log {
 		f := strings.Fields(l)
@@ -2423,13 +2457,13 @@ func c30RTPAccount(c *vkit.Check, t *testing.T, r c30Run) {
 			c.Eval()
 			c.Add("rtp_shapes", 1)
 			if f[3] == "sent" {
-				c.Distinct("rtp|" + f[2])
+				c.Distinct("rtp|" + local + "|" + f[2])
 				c.Add("rtp_shapes_sent", 1)
 			}
 			lastK = -1
 		case "RTPDONE":
 			done = true
-			c.Set("rtp_summary", strings.Join(f[1:], " "))
+			c.Set("rtp_summary"+map[bool]string{true: "", false: "_" + local}[local == ""], strings.Join(f[1:], " "))
 		}
 	}
 	if done && r.exit == 0 {
@@ -2437,9 +2471,13 @@ func c30RTPAccount(c *vkit.Check, t *testing.T, r c30Run) {
 	}
 	if site, msg, ok := c30PanicFromStderr(r.stderr); ok {
 		k := lastK
-		cs := c30Case{Part: "rtp", Shape: &k, Op: c30RTPFamBase(lastFam), Kind: lastFam}
-		c.Violation("panic|"+site+"|rtp:"+c30RTPFamBase(lastFam),
-			fmt.Sprintf("process killed by: %s while (or shortly after) shape %d (%s) from the connected peer was processed", msg, k, lastFam), cs)
+		cs := c30Case{Part: "rtp", Shape: &k, Op: c30RTPFamBase(lastFam), Kind: lastFam, Local: local}
+		key := "panic|" + site + "|rtp:" + c30RTPFamBase(lastFam)
+		if local != "" {
+			key += "|receiving-side=" + local
+		}
+		c.Violation(key,
+			fmt.Sprintf("process killed by: %s while (or shortly after) shape %d (%s) from the connected peer was processed (receiving side set-up %q)", msg, k, lastFam, local), cs)
 
 		return
 	}
